@@ -71,12 +71,23 @@ def perturb(root, rng):
                 rule = "type-not-pascal:UPPER_SNAKE"
             out.append((d, rule))
         elif rule == "constant-not-upper":
-            d.name = d.name.lower() if rng.random() < 0.5 else pascal(d.name)
+            # (a CLEAR violation has lower-case letters: PascalCase of `V_29600` is `V29600`, still upper case - false alarm of the thorough tier)
+            new = d.name.lower() if rng.random() < 0.5 else pascal(d.name)
+            if not any(ch.islower() for ch in new):
+                new = d.name.lower()
+            if not any(ch.islower() for ch in new):
+                continue
+            d.name = new
             out.append((d, rule))
         elif rule == "enum-member-not-upper":
             k = rng.randrange(len(d.members))
             n0 = d.members[k][0]
-            d.members[k] = (n0.lower() if rng.random() < 0.5 else pascal(n0), d.members[k][1])
+            new = n0.lower() if rng.random() < 0.5 else pascal(n0)
+            if not any(ch.islower() for ch in new):
+                new = n0.lower()
+            if not any(ch.islower() for ch in new):
+                continue
+            d.members[k] = (new, d.members[k][1])
             out.append((("ef#", d, k), rule))
         elif rule == "enum-without-zero":
             vals = [v for _, v in d.members]
